@@ -209,7 +209,7 @@ def build(root, block_size=4096, export=False, mtime=0, comp_id=1, pad=4096, fla
         assert it.tell() == n.ipos
         ext = n.ext
         tid = TYPE_ID[n.kind] + (7 if ext else 0)
-        it.buf += struct.pack("<HHHHII", tid, n.mode & 0o7777, idx(n.uid), idx(n.gid), n.mtime, n.ino)
+        it.buf += struct.pack("<HHHHII", tid, n.mode & 0xFFFF, idx(n.uid), idx(n.gid), n.mtime, n.ino)
         p = n.ipos + 16
         if n.kind == "dir":
             nl = n.nlink if n.nlink is not None else len(n.entries) + 2
